@@ -24,7 +24,7 @@ try:
             x = {k: v for k, v in ev.items() if k not in ('st', 'seq', 'p', 'ev', 'items', 'kind') and v not in (0, '', None, False) or k in ('ok',)}
             if ev['ev'] == 'quiescent':
                 x = {k: ev[k] for k in ('blocked', 'ws', 'pending', 'qpending', 'processing', 'idle', 'conc', 'sub', 'comp', 'succ', 'fail', 'census', 'jst', 'peak')}
-            print('%4d %-6s %-10s %s' % (ev['seq'], ev['p'], ev['ev'], json.dumps(x)[:230]))
+            print('%4d %-6s %-10s %s' % (ev['seq'], ev['p'], ev['ev'], json.dumps(x)[:(2000 if ev["ev"] == "quiescent" else 230)]))
         print('end', {k: v for k, v in e['end'].items() if k != 'choices'})
 finally:
     shutil.rmtree(sc, ignore_errors=True)
